@@ -6,6 +6,7 @@ import (
 	"io"
 	"os"
 	"os/exec"
+	"path/filepath"
 	"regexp"
 	"sort"
 	"strings"
@@ -15,7 +16,7 @@ import (
 // Solver answers satisfiability queries with a chain of SMT back ends, each kept
 // alive as one process: the first definitive answer (sat/unsat) decides; an
 // unknown/timeout/error falls through to the next back end. Default chain:
-// z3 4.8.12 (short timeout) -> cvc5 -> z3 5.1.0.
+// z3 4.8.12 (short timeout) -> cvc5 1.4 (Python bindings) -> z3 5.1.0.
 type backend struct {
 	name      string
 	cmdline   []string
@@ -45,6 +46,17 @@ type Solver struct {
 	CacheHits int
 }
 
+func cvc5ServerPath() string {
+	if p := os.Getenv("GOSYM_CVC5"); p != "" {
+		return p
+	}
+	exe, err := os.Executable()
+	if err != nil {
+		return "tools/cvc5srv.py"
+	}
+	return filepath.Join(filepath.Dir(exe), "..", "tools", "cvc5srv.py")
+}
+
 func NewSolver(cmdline []string, timeoutMs int, logPath string) (*Solver, error) {
 	s := &Solver{cmdline: cmdline, cache: map[string]string{}}
 	if logPath != "" {
@@ -61,7 +73,9 @@ func NewSolver(cmdline []string, timeoutMs int, logPath string) (*Solver, error)
 		}
 		s.backends = []*backend{
 			{name: "z3-4.8.12", cmdline: []string{"z3", "-in"}, timeoutMs: first, prelude: "(set-option :produce-models true)\n(set-option :timeout %d)\n"},
-			{name: "cvc5-1.0", cmdline: []string{"cvc5", "--incremental", "--strings-exp", "--lang=smt2"}, timeoutMs: timeoutMs, prelude: "(set-option :produce-models true)\n(set-option :tlimit-per %d)\n(set-logic ALL)\n"},
+			// cvc5 1.4 through its Python bindings: the packaged cvc5 1.0.3 binary answers unsat on
+			// satisfiable regular-expression constraints (see tools/cvc5srv.py) and is not trusted
+			{name: "cvc5-1.4", cmdline: []string{cvc5ServerPath()}, timeoutMs: timeoutMs, prelude: "(set-option :produce-models true)\n(set-option :tlimit-per %d)\n(set-logic ALL)\n"},
 			{name: "z3-5.1.0", cmdline: []string{"z3-new", "-in"}, timeoutMs: timeoutMs, prelude: "(set-option :produce-models true)\n(set-option :timeout %d)\n"},
 		}
 	} else {
